@@ -28,13 +28,14 @@ var opKinds = []string{
 	"commit", "commit", "prove", "prove", "verify", "verify", "ipa", "msm", "msm", "precomp",
 	"batchnorm", "tobytes", "decode", "mapfield", "frcodec", "frcodec", "transcript", "uncompressed", "groupops",
 	"readproof", "readproof", "readproof-short", "readpoint-short",
+	"prove-fail", "verify-malformed", "batchnorm-zero",
 }
 
 func genOp(r *Rng) OpSpec {
 	k := opKinds[r.Intn(len(opKinds))]
 	o := OpSpec{Kind: k, Seed: r.U64()}
 	switch k {
-	case "prove", "verify", "readproof", "readproof-short":
+	case "prove", "verify", "readproof", "readproof-short", "prove-fail", "verify-malformed":
 		o.Size = 1 + r.Intn(3)
 	case "msm":
 		o.Size = r.Pick([]int{1, 2, 3, 8, 20, 64, 130})
@@ -194,6 +195,46 @@ func runOp(o OpSpec) string {
 		var b2 bytes.Buffer
 		q.Write(&b2)
 		return digest(b2.Bytes(), q.Equal(*p))
+	case "prove-fail", "verify-malformed":
+		// rarely taken error paths, concurrently with everything else
+		label, Cs, fs, zs, ys := honestSmall(o.Seed, o.Size)
+		if o.Kind == "prove-fail" {
+			switch r.Intn(3) {
+			case 0:
+				zs = zs[:len(zs)-1]
+			case 1:
+				fs[0] = fs[0][:100]
+			default:
+				Cs = append(Cs, &banderwagon.Element{})
+				fs = append(fs, fs[0])
+				zs = append(zs, 0)
+			}
+			_, err := multiproof.CreateMultiProof(common.NewTranscript(label), cfg, Cs, fs, zs)
+			return digest(err != nil)
+		}
+		p, err := multiproof.CreateMultiProof(common.NewTranscript(label), cfg, Cs, fs, zs)
+		if err != nil {
+			return digest("err")
+		}
+		bad := *p
+		bad.IPA.L = bad.IPA.L[:1+r.Intn(7)]
+		ok, err := multiproof.CheckMultiProof(common.NewTranscript(label), cfg, &bad, Cs, ys, zs)
+		ok2, err2 := multiproof.CheckMultiProof(common.NewTranscript(label), cfg, p, Cs, ys, zs)
+		return digest(ok, err != nil, ok2, err2 != nil)
+	case "batchnorm-zero":
+		n := 2 + r.Intn(6)
+		els := make([]*banderwagon.Element, n)
+		for j := range els {
+			e := ElemFromRef(poolP[r.Intn(poolSize)], Repr(r.Intn(int(NumReprs))), r.Scalar())
+			els[j] = &e
+		}
+		els[r.Intn(n)] = &banderwagon.Element{}
+		err := banderwagon.BatchNormalize(els)
+		var raw []interface{}
+		for _, e := range els {
+			raw = append(raw, elemRaw(e))
+		}
+		return digest(err != nil, raw)
 	case "verify":
 		label, Cs, fs, zs, ys := honestSmall(o.Seed, o.Size)
 		p, err := multiproof.CreateMultiProof(common.NewTranscript(label), cfg, Cs, fs, zs)
